@@ -173,8 +173,11 @@ class Run:
         ev = {'property_id': self.pid, 'tier': self.tier, 'seed': self.seed, 'level': self.level, 'coverage': cov,
               'assumptions': self.assumptions, 'wall_s': round(time.time() - self.t0, 2),
               'violations': len(self.violations)}
-        os.makedirs(os.path.join(env.VERIF, 'evidence'), exist_ok=True)
-        with open(os.path.join(env.VERIF, 'evidence', f'{self.pid}.json'), 'w') as f:
+        # the evidence file of record is written only by a full run against the tree under verification (/repo); development runs against a scratch
+        # tree (VERIF_REPO) or of selected parts (--only) go to the ignored scratch directory
+        sub = 'evidence' if os.path.abspath(env.REPO) == '/repo' and not getattr(self, 'only', None) else os.path.join('scratch', 'evidence')
+        os.makedirs(os.path.join(env.VERIF, sub), exist_ok=True)
+        with open(os.path.join(env.VERIF, sub, f'{self.pid}.json'), 'w') as f:
             json.dump(ev, f, indent=1)
         if crashed:
             print(f'CHECKER-CRASH property={self.pid}: {crashed}', flush=True)
